@@ -21,11 +21,16 @@ pub struct Violation {
     /// Optional locating details used by known-finding signatures.
     pub offset: Option<u64>,
     pub stream_key: Option<u64>,
+    pub aux: Option<u64>,
+    /// Writer node of the stream the violation concerns (if any).
+    pub wnode: Option<usize>,
+    /// Node whose call/task the violation concerns (if any).
+    pub node: Option<usize>,
 }
 
 impl Violation {
     pub fn new(property: &'static str, tag: &'static str, t: T, msg: String) -> Self {
-        Violation { property, tag, t, msg, offset: None, stream_key: None }
+        Violation { property, tag, t, msg, offset: None, stream_key: None, aux: None, wnode: None, node: None }
     }
 }
 
@@ -59,8 +64,19 @@ impl ConnTable {
         let mut conns: Vec<WireConn> = vec![];
         let mut map: HashMap<(SocketAddr, SocketAddr, u16), (usize, bool)> = HashMap::new();
         let mut ambiguous = false;
-        for (t, e) in h.emits() {
-            let Some(p) = &e.pkt else { continue };
+        // SYNs as emitted and as delivered (a corrupted SYN legitimately defines the ids the
+        // acceptor uses).
+        let syns = h.evs.iter().filter_map(|(t, ev)| match ev {
+            Ev::Emit(e) => e.pkt.as_ref().map(|p| (*t, e.src, e.dst, p.clone())),
+            Ev::Deliver(d) if d.corrupted => d.pkt.as_ref().map(|p| (*t, d.src, d.dst, p.clone())),
+            _ => None,
+        });
+        struct E {
+            src: SocketAddr,
+            dst: SocketAddr,
+        }
+        for (t, src, dst, p) in syns {
+            let e = E { src, dst };
             if p.typ != codec::ST_SYN {
                 continue;
             }
